@@ -4,7 +4,7 @@
    keeps the context, every executable Statement literal carries it, getInstance / clone / Session
    copy it and nothing else writes a Context field.  A site that starts passing context.Background(),
    or anything the extractor cannot classify (FUnknown), makes these fail. *)
-From Verif Require Import Base C18_Model.
+From Verif Require Import Base C18_Model C18_Ops.
 From Gen Require Import Facts.
 Open Scope string_scope.
 
@@ -53,6 +53,12 @@ Lemma no_manufactured_context : forallb fresh_ok c18_fresh_contexts = true.
 Proof. vm_compute. reflexivity. Qed.
 
 Lemma no_internal_rebind : c18_internal_rebinds = [].
+Proof. vm_compute. reflexivity. Qed.
+
+(* the roles record over which C18_Ops.op_tree builds the operation trees (the internal Session
+   literals by role and the call-site forms by driver method, as they are in the current source)
+   satisfies the hypothesis of the operation-tree theorems (c18_ops_ok and the ones after it) *)
+Lemma roles_keep_ctx : roles_ok c18_roles = true.
 Proof. vm_compute. reflexivity. Qed.
 
 (* the extractor still sees the sites and literals the harness attributes events to *)
